@@ -306,7 +306,25 @@ func c06One(c *mon.Ctx, text string, os optSet) {
 		mk := func(j1, j2, detail string) c06Case {
 			return c06Case{Text: text, Options: os.Name, JSON1: truncate(j1, 1200), JSON2: truncate(j2, 1200), Detail: detail}
 		}
-		j1 := o1.JSON()
+		var j1 string
+		if len(text)%2 == 0 {
+			// the first serialisation of a freshly parsed object goes into a caller-owned buffer which the caller then
+			// recycles: what the object says about itself afterwards must not have changed (added after seeded change
+			// C06-p, a cache of the encoded text that kept a sub-slice of the caller's buffer)
+			buf := o1.AppendJSON(make([]byte, 0, 256))
+			j1 = string(buf)
+			buf = buf[:cap(buf)]
+			for i := range buf {
+				buf[i] = '#'
+			}
+			c.Count("first_serialisation_into_recycled_buffer")
+			if again := o1.JSON(); again != j1 {
+				c.Violation("not-fixpoint", "JSON() differs from the object's first serialisation after the caller recycled the buffer it was written to", mk(j1, again, "first serialisation through AppendJSON(buf), buf overwritten, then JSON()"))
+				return
+			}
+		} else {
+			j1 = o1.JSON()
+		}
 		if !json.Valid([]byte(j1)) {
 			c.Violation("invalid-json", "JSON() of an accepted object is not valid JSON", mk(j1, "", ""))
 			return
